@@ -13,3 +13,4 @@ pub mod tt;
 pub mod jsonc;
 pub mod reader;
 pub mod frontend;
+pub mod psm;
